@@ -1063,9 +1063,87 @@ fn relstore(rng: &mut Rng, iters: u64) {
     }
 }
 
+
+/// C16 probe (bounded stand-in: the stage-2 machinery of pm1_impl / pp1 is not under contract): primes p with
+/// p - 1 = m l (P-1) or p + 1 = m l with a suitable seed (P+1), m small and B1-smooth, l a stage-2 prime, for l at the
+/// edges of the baby/giant-step grid (a d1 +- b with extreme a and b) and inside it: a run with those bounds must
+/// separate p from p q for a 128-bit prime q
+fn stage2edge(rng: &mut Rng, iters: u64) {
+    use std::str::FromStr;
+    use yamaquasi::Verbosity;
+    fn gcd(a: u64, b: u64) -> u64 { if b == 0 { a } else { gcd(b, a % b) } }
+    fn mulmod(a: u64, b: u64, m: u64) -> u64 { ((a as u128 * b as u128) % m as u128) as u64 }
+    fn powmod(mut b: u64, mut e: u64, m: u64) -> u64 { let mut r = 1 % m; b %= m; while e > 0 { if e & 1 == 1 { r = mulmod(r, b, m); } b = mulmod(b, b, m); e >>= 1; } r }
+    let q128 = Uint::from_str("192361420203955321314102766284003105319").unwrap();
+    let ms = [2u64, 4, 6, 8, 10, 12, 14, 18, 20, 22, 24, 26, 28, 30, 36, 40, 42, 44, 48, 50, 54, 60, 66, 70, 72, 78, 84, 90, 96, 100, 102, 108, 110, 120];
+    let quick = iters < 1000;
+    // ---- P+1, exact grid of params::stage2_params
+    for (b1, b2) in [(1500u64, 30e3f64), (2000, 300e3)] {
+        let (_b2real, d1, d2) = yamaquasi::params::stage2_params(b2);
+        let bs: Vec<u64> = (1..d1 / 2).filter(|&b| gcd(b, d1) == 1).collect();
+        let amin = b1 / d1 + 1;
+        let mut cands: Vec<u64> = vec![];
+        let mut avals = vec![d2 - 1, d2 - 2, amin, amin + 1, d2 / 2, d2 / 2 + 1];
+        for _ in 0..(if quick { 2 } else { 12 }) { avals.push(amin + rng.next() % (d2 - amin)); }
+        for &a in &avals {
+            let mut bvals = vec![bs[0], bs[bs.len() - 1], bs[bs.len() - 2], bs[1]];
+            for _ in 0..2 { bvals.push(bs[(rng.next() as usize) % bs.len()]); }
+            for &b in &bvals {
+                for l in [a * d1 + b, (a * d1).saturating_sub(b)] {
+                    if l > b1 + 2 && l + d1 / 2 < d1 * d2 && is_prime_td_big(l) && !cands.contains(&l) { cands.push(l); }
+                }
+            }
+        }
+        let mut tested = 0;
+        for &l in &cands {
+            // p = m l - 1 prime, seed with (seed^2 - 4 | p) = -1
+            let Some(&m) = ms.iter().find(|&&m| is_prime_td_big(m * l - 1)) else { continue };
+            let p = m * l - 1;
+            let Some(seed) = (3u64..60).find(|&s| powmod((s * s - 4) % p, (p - 1) / 2, p) == p - 1) else { continue };
+            let n = Uint::from(p) * q128;
+            tested += 1;
+            match catch_unwind(AssertUnwindSafe(|| yamaquasi::pp1::pp1(n, seed, b1, b2, Verbosity::Silent))) {
+                Err(_) => fail("stage2edge", format!("pp1({n}, seed {seed}, B1 {b1}, B2 {b2}): panic")),
+                Ok(None) => fail("stage2edge", format!("pp1(p * q128, seed {seed}, B1 {b1}, B2 {b2}) = None for p = {p}: p + 1 = {m} * {l} with l = {} * {d1} + {} (d1 = {d1}, d2 = {d2}) and (seed^2 - 4 | p) = -1", (l + d1 / 2) / d1, l as i64 - ((l + d1 / 2) / d1 * d1) as i64)),
+                Ok(Some((fs, rest))) => {
+                    let mut prod = rest; for f in &fs { prod *= *f; }
+                    if prod != n || !(fs.contains(&Uint::from(p)) || rest == Uint::from(p)) {
+                        fail("stage2edge", format!("pp1(p * q128, seed {seed}, B1 {b1}, B2 {b2}) = ({fs:?}, {rest}) does not separate p = {p}"));
+                    }
+                }
+            }
+            if quick && tested >= 14 { break; }
+        }
+    }
+    // ---- P-1 (its stage-2 table is private: l is sampled just above B1, inside, and up to 0.9 B2)
+    for (b1, b2) in [(600u64, 40e3f64), (16 << 10, 450e3)] {
+        let hi = (0.9 * b2) as u64;
+        let mut cands: Vec<u64> = vec![];
+        let mut l = b1 + 1; while cands.len() < 3 { if is_prime_td_big(l) { cands.push(l); } l += 1; }
+        let mut l = hi; let mut k = 0; while k < 3 { if is_prime_td_big(l) { cands.push(l); k += 1; } l -= 1; }
+        for _ in 0..(if quick { 6 } else { 40 }) { let mut l = b1 + 1 + rng.next() % (hi - b1 - 1); while !is_prime_td_big(l) { l += 1; } if !cands.contains(&l) { cands.push(l); } }
+        for &l in &cands {
+            let Some(&m) = ms.iter().find(|&&m| is_prime_td_big(m * l + 1)) else { continue };
+            let p = m * l + 1;
+            let n = Uint::from(p) * q128;
+            match catch_unwind(AssertUnwindSafe(|| yamaquasi::pollard_pm1::pm1_impl(&n, b1, b2, Verbosity::Silent))) {
+                Err(_) => fail("stage2edge", format!("pm1_impl({n}, {b1}, {b2}): panic")),
+                Ok(None) => fail("stage2edge", format!("pm1_impl(p * q128, B1 {b1}, B2 {b2}) = None for p = {p}: p - 1 = {m} * {l}")),
+                Ok(Some((fs, rest))) => {
+                    let mut prod = rest; for f in &fs { prod *= *f; }
+                    if prod != n || !(fs.contains(&Uint::from(p)) || rest == Uint::from(p)) {
+                        fail("stage2edge", format!("pm1_impl(p * q128, B1 {b1}, B2 {b2}) = ({fs:?}, {rest}) does not separate p = {p}"));
+                    }
+                }
+            }
+        }
+    }
+}
+
 pub fn run(case: &str, rng: &mut Rng, iters: u64) -> bool {
     match case {
         "pp1" => pp1_case(),
+        "stage2edge" => stage2edge(rng, iters),
         "relstore" => relstore(rng, iters),
         "polyops" => polyops(rng, iters),
         "chainmul1024" => chainmul1024(rng, iters),
